@@ -130,11 +130,8 @@ def register(hub, prop="C14"):
             if om is None:
                 expect_result(call, recv, None, must_raise=True, sig=f"other={type(other).__name__}")
                 return
-            # dimensions sharing a letter must be the same dimension (one common dimension set)
-            for d in om.dims:
-                if d[0] in m.letters and m.get(d[0]) != d:
-                    rec.skip(M, "operands not from one common dimension set")
-                    return
+            # where the operands hold different dimensions under one letter, the operators go by letter and what they keep from the
+            # left operand is the left operand's dimension (the model does the same)
             sig = f"{kind}|{om.letters}|{'dim' if isinstance(other, fd.Dimension) else 'set'}"
             if kind == "add":
                 if m.inter(om).dims:
